@@ -12,6 +12,8 @@ import qp  # noqa: E402
 from common import Ctx, load_known_findings  # noqa: E402
 from translate import c12gen  # noqa: E402
 
+LEAN_TARGETS = ["QuriVerif.Props.C12", "QuriVerif.Props.C12Lift"]
+
 KNOWN = {"inv_U2": "inverse_gate.U2", "inv_U3": "inverse_gate.U3"}
 
 
@@ -233,24 +235,851 @@ def validate(ctx: Ctx, budget_s: float):
     ctx.search_budget_s = budget_s
 
 
+# ---------------------------------------------------------------------------
+# extensions: argument forms, entry points, histories, every extrapolation method, the qsub `Inverse` op
+# ---------------------------------------------------------------------------
+def _guard(ctx: Ctx, name, fn):
+    """run one validation section; a missing public name (renamed / removed API) is a correspondence difference,
+    never a crash of the check"""
+    import warnings
+
+    try:
+        with warnings.catch_warnings():
+            warnings.simplefilter("ignore")
+            with ctx.timed(name):
+                fn(ctx)
+    except (ImportError, AttributeError) as e:
+        ctx.disagree("api:" + name, name, f"{type(e).__name__}: {str(e)[:200]}", "public API used by the C12 validation")
+
+
+def _hermitian_unitary(rng, dim):
+    import numpy as np
+
+    from oracle import dense
+
+    v = dense.random_unitary(rng, dim)
+    d = np.diag([rng.choice([1.0, -1.0]) for _ in range(dim - 1)] + [-1.0]).astype(complex)
+    d[0, 0] = 1.0
+    return v @ d @ v.conj().T
+
+
+def special_unitary(rng, k):
+    """k-qubit unitaries on which `conjugate`, `transpose` and `conjugate transpose` are told apart:
+    symmetric non-Hermitian (transpose is a no-op), real non-symmetric (conjugate is a no-op), Hermitian with complex
+    entries (its own inverse although conj and T both change it), diagonal phases, permutations, Haar"""
+    import numpy as np
+
+    from oracle import dense
+
+    dim = 1 << k
+    kind = rng.choice(["sym", "sym", "real", "herm", "diag", "perm", "haar", "haar"])
+    if kind == "sym":
+        # V real orthogonal, D phases:  V D V^T is symmetric, unitary, not Hermitian
+        a = np.array([[rng.gauss(0, 1) for _ in range(dim)] for _ in range(dim)])
+        q, _ = np.linalg.qr(a)
+        d = np.diag(np.exp(1j * np.array([rng.uniform(0.3, 2.8) for _ in range(dim)])))
+        m = q @ d @ q.T
+    elif kind == "real":
+        a = np.array([[rng.gauss(0, 1) for _ in range(dim)] for _ in range(dim)])
+        q, _ = np.linalg.qr(a)
+        m = q.astype(complex)
+    elif kind == "herm":
+        m = _hermitian_unitary(rng, dim)
+    elif kind == "diag":
+        m = np.diag(np.exp(1j * np.array([rng.uniform(0, 6.28) for _ in range(dim)])))
+    elif kind == "perm":
+        pm = list(range(dim))
+        rng.shuffle(pm)
+        m = np.zeros((dim, dim), dtype=complex)
+        for i, j in enumerate(pm):
+            m[j, i] = rng.choice([1, 1j, -1, -1j])
+    else:
+        m = dense.random_unitary(rng, dim)
+    return kind, m
+
+
+def _matrix_form(rng, m):
+    """the same matrix in the argument forms the factory accepts"""
+    import numpy as np
+
+    f = rng.choice(["list", "ndarray", "tuple", "fortran"])
+    if f == "list":
+        return f, m.tolist()
+    if f == "ndarray":
+        return f, np.array(m)
+    if f == "fortran":
+        return f, np.asfortranarray(m)
+    return f, tuple(tuple(complex(x) for x in row) for row in m)
+
+
+def _circ_of(n, gs):
+    from quri_parts.circuit import QuantumCircuit
+
+    c = QuantumCircuit(n)
+    for g in gs:
+        c.add_gate(g)
+    return c
+
+
+def validate_inverse_forms(ctx: Ctx):
+    """inverse_gate / inverse_circuit on argument forms and sizes the random-circuit generator never produces"""
+    import numpy as np
+
+    from oracle import dense
+    from quri_parts.circuit import ParametricQuantumCircuit, QuantumCircuit, gates, inverse_circuit, inverse_gate
+
+    rng = ctx.rng
+    n = 4
+    cases = []
+    for _ in range(ctx.n(160, 1600)):
+        k = rng.choice([1, 1, 2, 2, 3])
+        kind, m = special_unitary(rng, k)
+        form, arg = _matrix_form(rng, m)
+        ts = rng.sample(range(n), k)
+        tform = rng.choice(["list", "tuple"])
+        cases.append((f"UnitaryMatrix[{k}q,{kind},{form}]", lambda ts=ts, arg=arg, tform=tform: gates.UnitaryMatrix(ts if tform == "list" else tuple(ts), arg)))
+    for _ in range(ctx.n(80, 800)):
+        name = rng.choice(["RX", "RY", "RZ", "U1"])
+        ang = rng.choice([0, 1, -3, 7, np.float64(rng.uniform(-7, 7)), 0.0, -0.0, math.pi, -math.pi / 2, 4 * math.pi + 0.25, rng.uniform(-50, 50), 1e-9])
+        q = rng.randrange(n)
+        cases.append((f"{name}[{type(ang).__name__}]", lambda name=name, q=q, ang=ang: getattr(gates, name)(q, ang)))
+    for _ in range(ctx.n(100, 1000)):
+        k = rng.randint(1, 4)
+        ts = rng.sample(range(n), k)
+        ids = [rng.randint(1, 3) for _ in range(k)]
+        ang = rng.choice([1, -2, np.float64(rng.uniform(-7, 7)), c01.nongrid_angle(rng), math.pi, 2 * math.pi])
+        form = rng.choice(["list", "tuple"])
+        cases.append((f"PauliRotation[{k},{form},{type(ang).__name__}]",
+                      lambda ts=ts, ids=ids, ang=ang, form=form: gates.PauliRotation(ts if form == "list" else tuple(ts), ids if form == "list" else tuple(ids), ang)))
+    # U2 / U3 at the parameter points where plain negation IS the inverse (phi = lam for U3, phi = lam + pi for U2):
+    # these must pass whatever the fate of the known finding
+    for _ in range(ctx.n(30, 300)):
+        th, ph = c01.nongrid_angle(rng), c01.nongrid_angle(rng)
+        q = rng.randrange(n)
+        cases.append(("U3[phi=lam]", lambda q=q, th=th, ph=ph: gates.U3(q, th, ph, ph)))
+        cases.append(("U2[phi=lam+pi]", lambda q=q, ph=ph: gates.U2(q, ph + math.pi, ph)))
+    for what, mk in cases:
+        try:
+            g = mk()
+        except Exception:  # noqa: BLE001  (the factory rejected the form: nothing to invert)
+            ctx.count("inverse_forms", "factory-rejected")
+            continue
+        ctx.evaluations += 1
+        ctx.count("inverse_forms", what.split("[")[0])
+        desc = c01.describe_circ(_circ_of(n, [g]))
+        try:
+            inv = inverse_gate(g)
+            d = dense.phase_dist(dense.gate_unitary(n, inv) @ dense.gate_unitary(n, g), np.eye(1 << n))
+        except Exception as e:  # noqa: BLE001
+            ctx.witness("inverse_gate-forms", f"inverse_gate raised {type(e).__name__} for {what}", desc)
+            continue
+        if d > 1e-7:
+            ctx.witness("inverse_gate-forms", f"inverse_gate({what}) · gate differs from the identity by {d:.3g}", desc,
+                        {"inverse": c01.describe_circ(_circ_of(n, [inv]))})
+    # inverse_circuit: mutable / frozen / bound-parametric inputs, longer circuits, the result's shape
+    safe = [k for k in c01.ALL_KINDS if k not in ("U2", "U3")] + ["UM1", "UM2"]
+    for _ in range(ctx.n(120, 1200)):
+        nq = rng.randint(1, 4)
+        c = c01.random_real_circuit(rng, nq, rng.randint(0, 14), safe)
+        form = rng.choice(["mutable", "frozen", "bound"])
+        arg = c
+        if form == "frozen":
+            arg = c.freeze()
+        elif form == "bound":
+            pc = ParametricQuantumCircuit(nq)
+            vals = []
+            for g in c.gates:
+                if g.name in ("RX", "RY", "RZ") and rng.random() < 0.7:
+                    getattr(pc, f"add_Parametric{g.name}_gate")(g.target_indices[0])
+                    vals.append(g.params[0])
+                elif g.name == "PauliRotation" and rng.random() < 0.7:
+                    pc.add_ParametricPauliRotation_gate(g.target_indices, g.pauli_ids)
+                    vals.append(g.params[0])
+                else:
+                    pc.add_gate(g)
+            arg = (pc if rng.random() < 0.5 else pc.freeze()).bind_parameters(vals)
+        ctx.evaluations += 1
+        ctx.count("inverse_circuit_form", form)
+        orig = list(arg.gates)
+        desc = {"form": form, **c01.describe_circ(_circ_of(nq, orig))}
+        try:
+            ic = inverse_circuit(arg)
+            igs = list(ic.gates)
+            d = dense.phase_dist(dense.circuit_unitary(nq, orig + igs), np.eye(1 << nq))
+            d2 = dense.phase_dist(dense.circuit_unitary(nq, igs + orig), np.eye(1 << nq))
+        except Exception as e:  # noqa: BLE001
+            ctx.witness("inverse_circuit", f"inverse_circuit raised {type(e).__name__}: {str(e)[:120]}", desc)
+            continue
+        if max(d, d2) > 1e-6:
+            ctx.witness("inverse_circuit", f"circuit·inverse differs from the identity by {max(d, d2):.3g} ({form} input)", desc)
+        elif ic.qubit_count != nq or len(igs) != len(orig) or list(arg.gates) != orig:
+            ctx.witness("inverse_circuit", f"inverse of a {nq}-qubit {len(orig)}-gate circuit has {ic.qubit_count} qubits / {len(igs)} gates"
+                        f"{'' if list(arg.gates) == orig else '; the input circuit was modified'}", desc)
+
+
+def exact_fold_numbers(s, n):
+    """(k, a, ambiguous) by exact rational arithmetic on the value of the scale factor: k whole foldings, a extra gates,
+    ambiguous when (s-(2k+1))·n/2 is within 1e-9 below an integer (float rounding may legitimately reach it)"""
+    from fractions import Fraction
+
+    S = Fraction(float(s)) if not isinstance(s, int) else Fraction(s)
+    k = (S - 1) / 2
+    k = k.numerator // k.denominator
+    ex = (S - (2 * k + 1)) * n / 2
+    a = ex.numerator // ex.denominator
+    return k, a, (ex - a) > 1 - Fraction(1, 10**9)
+
+
+def twin_gates(rng, n):
+    """gates that agree in name / targets / params but differ in the attribute a careless cache key forgets"""
+    import numpy as np
+
+    from oracle import dense
+    from quri_parts.circuit import gates
+
+    out = []
+    k = rng.randint(1, min(n, 3))
+    ts = rng.sample(range(n), k)
+    th = c01.nongrid_angle(rng)
+    ids = [[rng.randint(1, 3) for _ in range(k)] for _ in range(3)]
+    out += [gates.PauliRotation(ts, i, th) for i in ids] + [gates.PauliRotation(ts, ids[0], -th), gates.PauliRotation(ts[::-1], ids[0], th)]
+    out += [gates.Pauli(ts, i) for i in ids[:2]]
+    k2 = rng.randint(1, min(n, 2))
+    t2 = rng.sample(range(n), k2)
+    ms = [special_unitary(rng, k2)[1] for _ in range(3)]
+    out += [gates.UnitaryMatrix(t2, m.tolist()) for m in ms] + [gates.UnitaryMatrix(t2, ms[0].conj().T.tolist()), gates.UnitaryMatrix(t2, ms[0].T.tolist())]
+    q = rng.randrange(n)
+    out += [gates.RX(q, th), gates.RX(q, -th), gates.RY(q, th), gates.RZ(q, th), gates.U1(q, th), gates.S(q), gates.Sdag(q), gates.T(q), gates.Tdag(q),
+            gates.SqrtX(q), gates.SqrtXdag(q), gates.SqrtY(q), gates.SqrtYdag(q), gates.U3(q, th, 0.4, 0.4)]
+    if n >= 2:
+        a, b = rng.sample(range(n), 2)
+        out += [gates.CNOT(a, b), gates.CNOT(b, a), gates.CZ(a, b), gates.SWAP(a, b)]
+        out += [gates.RX(b, th), gates.U1(a, th)]
+    if n >= 3:
+        a, b, c = rng.sample(range(n), 3)
+        out += [gates.TOFFOLI(a, b, c), gates.TOFFOLI(a, c, b)]
+    return out
+
+
+class _InvCheck:
+    """memoised 'x is the inverse of g (up to a phase)' on the gates' own register"""
+
+    def __init__(self, n):
+        self.n = n
+        self.memo = {}
+
+    def __call__(self, x, g):
+        import numpy as np
+
+        from oracle import dense
+
+        try:
+            key = (x, g)
+            hash(key)
+        except TypeError:
+            key = None
+        if key is not None and key in self.memo:
+            return self.memo[key]
+        try:
+            ok = dense.phase_dist(dense.gate_unitary(self.n, x) @ dense.gate_unitary(self.n, g), np.eye(1 << self.n)) < 1e-7
+        except Exception:  # noqa: BLE001
+            ok = False
+        if key is not None:
+            self.memo[key] = ok
+        return ok
+
+
+def fold_structure_error(n, orig, out, k, sel):
+    """documented shape of a folded circuit: gate i, then (k + [i selected]) times (inverse of gate i, gate i)"""
+    isinv = _InvCheck(n)
+    sel = {int(i) for i in sel}
+    pos = 0
+    for i, g in enumerate(orig):
+        reps = k + (1 if i in sel else 0)
+        need = 1 + 2 * reps
+        blk = out[pos:pos + need]
+        if len(blk) < need:
+            return f"output ends inside the block of gate {i} (expected {need} gates for it)"
+        if blk[0] != g or any(blk[2 * j + 2] != g for j in range(reps)):
+            return f"block of gate {i} does not repeat gate {i} at the expected positions"
+        for j in range(reps):
+            if not isinv(blk[2 * j + 1], g):
+                return f"block of gate {i}: the gate at offset {2 * j + 1} is not the inverse of gate {i}"
+        pos += need
+    if pos != len(out):
+        return f"{len(out) - pos} surplus gates after the last block"
+    return None
+
+
+def _scale_pool(rng):
+    import numpy as np
+
+    r = rng.random()
+    if r < 0.2:
+        return rng.choice([1, 2, 3, 4, 5, 7, 9, 21])  # python ints
+    if r < 0.35:
+        return np.float64(rng.choice([1.0, 1.5, 2.0, 3.0, 2.75, rng.uniform(1, 9)]))
+    if r < 0.5:
+        o = rng.choice([1, 3, 5, 7, 11])
+        return max(1.0, o + rng.choice([0.0, 1e-12, -1e-12, 1e-9, -1e-9, 1e-6, -1e-6, 0.5, 1.0, 1.999999, 1.5]))
+    if r < 0.6:
+        return rng.choice([1.1, 1.2, 1.4, 1.6, 1.8, 2.2, 2.6, 3.3, 4.4, 1 / 3 + 1, 2 / 3 + 1, 13.37, 25.5, 40.25])
+    return rng.uniform(1.0, 12.0)
+
+
+def validate_fold_general(ctx: Ctx):
+    """scaling_circuit_folding on arbitrary gates, arbitrary (non-dyadic, int, numpy) scale factors, library and
+    user-written folding methods, shared folding objects and repeated calls: gate count by exact arithmetic, block
+    structure, selected side, and (small cases) the action"""
+    import numpy as np
+
+    from oracle import dense
+    from quri_parts.algo.mitigation.zne import (
+        create_folding_left,
+        create_folding_random,
+        create_folding_right,
+        scaling_circuit_folding,
+    )
+
+    rng = ctx.rng
+    safe = [k for k in c01.ALL_KINDS if k not in ("U2", "U3")] + ["UM1", "UM2"]
+    shared = {"left": create_folding_left(), "right": create_folding_right()}
+    seeds = [0, 1, 7, 12345]
+    shared_random = {sd: create_folding_random(sd) for sd in seeds}
+
+    # user-written FoldingMethods honouring the interface contract (return the residual number of distinct gate indices),
+    # with selections / container types the library's own methods never produce
+    def _resid(circuit, scale_factor):
+        return exact_fold_numbers(scale_factor, len(circuit.gates))[1]
+
+    def custom_stride(circuit, scale_factor):
+        ng_ = len(circuit.gates)
+        order_ = [i for i in range(1, ng_, 2)] + [i for i in range(0, ng_, 2)]
+        return order_[:_resid(circuit, scale_factor)]
+
+    def custom_tuple_desc(circuit, scale_factor):
+        ng_ = len(circuit.gates)
+        mid = ng_ // 2
+        order_ = sorted(range(ng_), key=lambda i: (abs(i - mid), i))
+        return tuple(sorted(order_[:_resid(circuit, scale_factor)], reverse=True))
+
+    def custom_ndarray(circuit, scale_factor):
+        ng_ = len(circuit.gates)
+        order_ = [(7 * i + 3) % ng_ for i in range(ng_)] if ng_ and math.gcd(7, ng_) == 1 else list(range(ng_))[::-1]
+        return np.array(order_[:_resid(circuit, scale_factor)], dtype=np.int64)
+
+    customs = {"custom:stride": custom_stride, "custom:tuple-desc": custom_tuple_desc, "custom:ndarray": custom_ndarray}
+    pool = []  # circuits that are folded again later (history)
+    for it in range(ctx.n(1500, 15000)):
+        r = rng.random()
+        if pool and r < 0.25:
+            n, c = rng.choice(pool)
+        elif r < 0.55:
+            n = rng.randint(1, 3)
+            tg = twin_gates(rng, n)
+            c = _circ_of(n, [rng.choice(tg) for _ in range(rng.randint(1, 9))])
+            pool.append((n, c))
+        elif r < 0.75:
+            n = 1
+            c = c01.random_real_circuit(rng, 1, rng.choice([1, 2, 3, 5, 7, 10, 16, 31, 40]), safe)
+        else:
+            n = rng.randint(1, 4)
+            c = c01.random_real_circuit(rng, n, rng.randint(0, 12), safe)
+            if rng.random() < 0.3:
+                pool.append((n, c))
+        if len(pool) > 12:
+            pool.pop(0)
+        s = _scale_pool(rng)
+        ng = len(c.gates)
+        if ng * float(s) > 700:
+            s = rng.choice([1.5, 2.0, 3, 4.25])
+        mname = rng.choice(["left", "right", "random", "random-fresh", "random-none"] + list(customs))
+        arg = c.freeze() if rng.random() < 0.4 else c
+        orig = list(c.gates)
+        k, a, amb = exact_fold_numbers(s, ng)
+        desc = {"scale_factor": repr(s), "scale_type": type(s).__name__, "method": mname, **c01.describe_circ(c)}
+        ctx.evaluations += 1
+        ctx.count("fold_general", mname.split(":")[0])
+        ctx.count("fold_scale_type", type(s).__name__)
+        try:
+            if mname in shared:
+                fold = shared[mname]
+                sel_doc = list(range(a)) if mname == "left" else list(range(ng - a, ng))
+                sel = [int(x) for x in fold(arg, s)]
+                if sel != sel_doc and not amb:
+                    ctx.witness("folding-selection", f"folding_{mname} selects {sel} instead of the {a} {'first' if mname == 'left' else 'last'} gates {sel_doc}", desc)
+                    continue
+            elif mname.startswith("random"):
+                if mname == "random":
+                    sd = rng.choice(seeds)
+                    fold = shared_random[sd]
+                elif mname == "random-fresh":
+                    sd = rng.randint(0, 2**31 - 1)
+                    fold = create_folding_random(sd)
+                else:
+                    sd = None
+                    fold = create_folding_random() if rng.random() < 0.5 else create_folding_random(None)
+                desc["seed"] = sd
+                sel = [int(x) for x in fold(arg, s)]
+                if not amb and (len(sel) != a or len(set(sel)) != len(sel) or any(not (0 <= i < ng) for i in sel)):
+                    ctx.witness("folding-selection", f"folding_random selects {sel}; expected {a} distinct indices below {ng}", desc)
+                    continue
+                if sd is not None and [int(x) for x in fold(arg, s)] != sel:
+                    ctx.witness("folding-selection", "folding_random with a fixed seed gives different selections on repeated calls", desc)
+                    continue
+                if sd is None:
+                    # unseeded: the selection used inside scaling_circuit_folding is not observable; judge count and action only
+                    sel = None
+            else:
+                fold = customs[mname]
+                sel = [int(x) for x in fold(arg, s)]
+            out = list(scaling_circuit_folding(arg, s, fold).gates)
+        except Exception as e:  # noqa: BLE001
+            ctx.witness("folding-raises", f"{type(e).__name__}: {str(e)[:160]}", desc)
+            continue
+        if list(c.gates) != orig:
+            ctx.witness("folding-structure", "scaling_circuit_folding modified its input circuit", desc)
+            continue
+        nsel = a if sel is None else len(sel)
+        want = ng * (2 * k + 1) + 2 * nsel
+        if len(out) != want and not (amb and sel is None and len(out) == want + 2):
+            ctx.witness("folding-count", f"folded circuit has {len(out)} gates; documented count for n={ng}, scale {s!r} is "
+                        f"n·(2k+1)+2·{nsel} = {want} (k={k})", desc)
+            continue
+        if sel is not None:
+            err = fold_structure_error(n, orig, out, k, sel)
+            if err:
+                ctx.witness("folding-structure", f"folded circuit (k={k}, selected {sorted(sel)}) is not gate·(inverse·gate)^m per gate: {err}", desc)
+                continue
+        if n <= 3 and len(out) <= 120 and (sel is None or rng.random() < 0.3):
+            d = dense.phase_dist(dense.circuit_unitary(n, out), dense.circuit_unitary(n, orig))
+            if d > 1e-6:
+                ctx.witness("folding", f"folded circuit (s={s!r}, {mname}) differs from the circuit by {d:.3g}", desc)
+
+
+def _pauli_terms(rng, n):
+    """[(coef, ((qubit, 'X'|'Y'|'Z'), ...))]; the empty product is the identity"""
+    terms = []
+    for _ in range(rng.randint(1, 4)):
+        qs = sorted(rng.sample(range(n), rng.randint(0 if rng.random() < 0.15 else 1, n)))
+        terms.append((rng.choice([0.5, -1.25, 2.0, 1.0, -0.75]), tuple((q, rng.choice("XYZ")) for q in qs)))
+    return terms
+
+
+def _terms_matrix(n, terms):
+    import numpy as np
+
+    from oracle import dense
+
+    m = np.zeros((1 << n, 1 << n), dtype=complex)
+    code = {"X": 1, "Y": 2, "Z": 3}
+    for coef, prod in terms:
+        if prod:
+            m += coef * dense.embed(n, [q for q, _ in prod], dense.pauli_matrix_local([code[p] for _, p in prod]))
+        else:
+            m += coef * np.eye(1 << n)
+    return m
+
+
+def _label_of(prod):
+    from quri_parts.core.operator import PAULI_IDENTITY, pauli_label
+
+    return pauli_label(" ".join(f"{p}{q}" for q, p in prod)) if prod else PAULI_IDENTITY
+
+
+LOG_KEY = "zne-noiseless.exp_with_const_log"
+
+
+def _judge_log(ctx, v, const, got, what, inp):
+    """create_exp_extrapolate_with_const_log on constant data: the sign of the fitted exponential comes from the slope of
+    a straight-line fit, which is rounding noise (or exactly 0) for constant data -> known finding LOG_KEY when the
+    result is const ± |v − const| or const or the IndexError of the trimmed fit; anything else is a different failure"""
+    if isinstance(got, str):
+        if got.startswith("IndexError"):
+            ctx.witness(LOG_KEY, f"{what}: raises {got} instead of returning {v!r}", inp)
+        else:
+            ctx.witness("zne-noiseless.exp_with_const_log.other", f"{what}: raises {got}", inp)
+        return
+    if abs(got - v) <= 1e-6 * max(1.0, abs(v)):
+        return
+    if abs(abs(got - const) - abs(v - const)) <= 1e-6 * max(1.0, abs(v)) or abs(got - const) <= 1e-6:
+        ctx.witness(LOG_KEY, f"{what}: returns {got!r} instead of {v!r} (constant {const!r})", inp)
+    else:
+        ctx.witness("zne-noiseless.exp_with_const_log.other", f"{what}: returns {got!r}, neither {v!r} nor constant ± |value − constant| (constant {const!r})", inp)
+
+
+def _sf_form(rng, sf):
+    import numpy as np
+
+    f = rng.choice(["list", "list", "tuple", "ndarray", "int-list"])
+    if f == "tuple":
+        return f, tuple(sf)
+    if f == "ndarray":
+        return f, np.array(sf, dtype=float)
+    if f == "int-list" and all(float(x).is_integer() for x in sf):
+        return f, [int(x) for x in sf]
+    return "list", list(sf)
+
+
+def _scale_factor_set(rng, lo, hi):
+    L = rng.randint(lo, hi)
+    pool = rng.choice([[1.0, 2.0, 3.0, 4.0, 5.0, 6.0], [1.0, 3.0, 5.0, 7.0, 9.0], [1.0, 1.5, 2.0, 2.5, 3.0, 3.5, 4.0], [1.0, 1.3, 1.7, 2.2, 2.9, 3.1, 4.6, 5.0]])
+    L = min(L, len(pool))
+    sf = rng.sample(pool, L)
+    order = rng.choice(["asc", "asc", "desc", "shuffled"])
+    if order == "asc":
+        sf.sort()
+    elif order == "desc":
+        sf.sort(reverse=True)
+    return sf
+
+
+def validate_extrapolators(ctx: Ctx):
+    """every shipped ZeroExtrapolationMethod on constant data (what a noiseless estimator produces) returns the constant"""
+    from quri_parts.algo.mitigation.zne import (
+        create_exp_extrapolate,
+        create_exp_extrapolate_with_const,
+        create_exp_extrapolate_with_const_log,
+        create_polynomial_extrapolate,
+    )
+
+    rng = ctx.rng
+    # pinned replay of the known finding
+    inp = {"method": "create_exp_extrapolate_with_const_log(order=0, constant=0.1)", "scale_factors": [1.0, 2.0, 3.0], "exp_values": [0.5, 0.5, 0.5]}
+    try:
+        got = float(create_exp_extrapolate_with_const_log(0, 0.1)([1.0, 2.0, 3.0], [0.5, 0.5, 0.5]))
+    except Exception as e:  # noqa: BLE001
+        got = f"{type(e).__name__}: {str(e)[:80]}"
+    ctx.evaluations += 1
+    _judge_log(ctx, 0.5, 0.1, got, "exponential (log-fit, known constant) extrapolation of constant data", inp)
+    for _ in range(ctx.n(600, 6000)):
+        v = rng.choice([rng.uniform(-3, 3), rng.uniform(-1e-3, 1e-3), 0.0, 1.0, -1.0, 0.5, -1.25, 2.0])
+        sf = _scale_factor_set(rng, 2, 6)
+        form, sfa = _sf_form(rng, sf)
+        L = len(sf)
+        const = rng.choice([0.0, 0.1, -0.5, 1.0, 0.25])
+        fam = rng.choice(["poly", "poly", "exp", "exp_const", "exp_const_log"])
+        if fam == "exp" and L < 3:
+            fam = "poly"
+        order = rng.randint(0, {"poly": L - 1, "exp": L - 3, "exp_const": L - 2, "exp_const_log": L - 1}[fam])
+        mk = {"poly": lambda: create_polynomial_extrapolate(order), "exp": lambda: create_exp_extrapolate(order),
+              "exp_const": lambda: create_exp_extrapolate_with_const(order, const),
+              "exp_const_log": lambda: create_exp_extrapolate_with_const_log(order, const)}[fam]
+        ys = [v] * L if rng.random() < 0.7 else tuple([v] * L)
+        inp = {"method": fam, "order": order, "constant": const if fam.startswith("exp_const") else None, "scale_factors": [repr(x) for x in sf],
+               "scale_factors_form": form, "exp_values": [repr(v)] * L}
+        ctx.evaluations += 1
+        ctx.count("extrapolator", fam)
+        try:
+            got = float(mk()(sfa, ys))
+        except Exception as e:  # noqa: BLE001
+            got = f"{type(e).__name__}: {str(e)[:80]}"
+        if fam == "exp_const_log":
+            _judge_log(ctx, v, const, got, f"log-fit exponential extrapolation (order {order}) of constant data", inp)
+        elif isinstance(got, str):
+            ctx.witness("zne-extrapolate-constant", f"{fam} extrapolation (order {order}) of constant data raises {got}", inp)
+        elif abs(got - v) > 1e-6 * max(1.0, abs(v)):
+            ctx.witness("zne-extrapolate-constant", f"{fam} extrapolation (order {order}) of the constant {v!r} returns {got!r}", inp)
+
+
+def validate_zne(ctx: Ctx):
+    """zne / richardson_extrapolation / create_zne_estimator on exact (noiseless) estimators: every folding method, every
+    extrapolation family, bare Pauli labels and operators with an identity term, non-Hermitian operators, scale
+    factors in several container / numeric forms and orders, one estimator object reused over many states"""
+    import numpy as np
+
+    from oracle import dense
+    from quri_parts.algo.mitigation.zne import (
+        create_exp_extrapolate,
+        create_exp_extrapolate_with_const,
+        create_exp_extrapolate_with_const_log,
+        create_folding_left,
+        create_folding_random,
+        create_folding_right,
+        create_polynomial_extrapolate,
+        create_zne_estimator,
+        richardson_extrapolation,
+        zne,
+    )
+    from quri_parts.core.operator import Operator
+    from quri_parts.core.state import ComputationalBasisState, GeneralCircuitQuantumState
+
+    rng = ctx.rng
+    try:
+        from quri_parts.qulacs.estimator import create_qulacs_vector_concurrent_estimator
+
+        qulacs_est = create_qulacs_vector_concurrent_estimator()
+    except ImportError as e:
+        qulacs_est = None
+        ctx.notes.append(f"qulacs estimator unavailable ({e}); the dense estimator is used throughout")
+
+    class E:  # Estimate
+        def __init__(self, value):
+            self.value = value
+            self.error = 0.0
+
+    def dense_estimator_for(n, mat):
+        """an exact ConcurrentQuantumEstimator for ONE known observable (matrix built independently of the library)"""
+        def est(ops, states):
+            assert len(ops) == 1
+            out = []
+            for st in states:
+                u = dense.circuit_unitary(n, st.circuit.gates)
+                psi = u[:, 0]
+                out.append(E(complex(np.vdot(psi, mat @ psi))))
+            return out
+        return est
+
+    safe = [k for k in c01.ALL_KINDS if k not in ("U2", "U3")]
+    folds = {"left": create_folding_left, "right": create_folding_right, "random-seeded": lambda: create_folding_random(rng.randint(0, 9999)),
+             "random-unseeded": lambda: create_folding_random()}
+    shared_est = {}
+    for it in range(ctx.n(400, 4000)):
+        n = rng.randint(1, 3)
+        c = c01.random_real_circuit(rng, n, rng.randint(1, 6), safe + (["UM1", "UM2"] if rng.random() < 0.3 else []))
+        if not c.gates:
+            continue
+        terms = _pauli_terms(rng, n)
+        obs_form = rng.choice(["operator", "operator", "operator", "label", "label", "nonhermitian"])
+        if obs_form == "label":
+            terms = [(1.0, terms[0][1])]
+            obs = _label_of(terms[0][1])
+        else:
+            if obs_form == "nonhermitian":
+                psi0 = dense.circuit_unitary(n, c.gates)[:, 0]
+                big = max(range(len(terms)), key=lambda i: abs(np.vdot(psi0, _terms_matrix(n, [(1.0, terms[i][1])]) @ psi0)))
+                terms = [((cf * (1j if i == big else 1.0)), pr) for i, (cf, pr) in enumerate(terms)]
+            obs = Operator()
+            for cf, pr in terms:
+                obs.add_term(_label_of(pr), cf)
+            terms = [(cf, pr) for pr, cf in {pr: sum(c2 for c2, p2 in terms if p2 == pr) for _, pr in terms}.items()]
+        mat = _terms_matrix(n, terms)
+        psi = dense.circuit_unitary(n, c.gates)[:, 0]
+        exact = complex(np.vdot(psi, mat @ psi))
+        has_um = any(g.name == "UnitaryMatrix" for g in c.gates)
+        use_dense = qulacs_est is None or rng.random() < 0.4
+        est = dense_estimator_for(n, mat) if use_dense else qulacs_est
+        fname = rng.choice(list(folds))
+        fold = folds[fname]()
+        fam = rng.choice(["poly", "poly", "richardson", "exp", "exp_const", "exp_const_log"])
+        sf = _scale_factor_set(rng, 3 if fam == "exp" else 2, 5)
+        if sum(sf) * len(c.gates) > 260:
+            sf = sorted(sf)[:3]
+            if fam == "exp" and len(sf) < 3:
+                fam = "poly"
+        distinct = len(sf)
+        r = rng.random()
+        if fam == "poly" and r < 0.12:
+            sf = sf + [rng.choice(sf)]  # a repeated scale factor
+            rng.shuffle(sf)
+        elif fam in ("poly", "richardson") and r < 0.2:
+            sf = [rng.choice(sf)]  # a single scale factor (order 0)
+            distinct = 1
+        form, sfa = _sf_form(rng, sf)
+        L = len(sf)
+        const = rng.choice([0.0, 0.1, -0.5, 1.0])
+        order = rng.randint(0, {"poly": distinct - 1, "richardson": L - 1, "exp": L - 3, "exp_const": L - 2, "exp_const_log": L - 1}[fam])
+        extr = {"poly": lambda: create_polynomial_extrapolate(order), "richardson": lambda: None, "exp": lambda: create_exp_extrapolate(order),
+                "exp_const": lambda: create_exp_extrapolate_with_const(order, const),
+                "exp_const_log": lambda: create_exp_extrapolate_with_const_log(order, const)}[fam]()
+        cform = rng.choice(["mutable", "frozen"])
+        carg = c.freeze() if cform == "frozen" else c
+        entry = "richardson_extrapolation" if fam == "richardson" else rng.choice(["zne", "create_zne_estimator"])
+        inp = {"entry": entry, "observable": [(repr(cf), " ".join(f"{p}{q}" for q, p in pr) or "I") for cf, pr in terms], "observable_form": obs_form,
+               "scale_factors": [repr(x) for x in sf], "scale_factors_form": form, "folding": fname, "extrapolation": fam, "order": order,
+               "constant": const if fam.startswith("exp_const") else None, "estimator": "dense" if use_dense else "qulacs", "circuit_form": cform,
+               **c01.describe_circ(c)}
+        ctx.evaluations += 1
+        ctx.count("zne_entry", entry)
+        ctx.count("zne_extrapolation", fam)
+        ctx.count("zne_obs", obs_form)
+        try:
+            if entry == "richardson_extrapolation":
+                got = richardson_extrapolation(obs, carg, est, sfa, fold)
+            elif entry == "zne":
+                got = zne(obs, carg, est, sfa, extr, fold)
+            else:
+                zest = create_zne_estimator(est, sfa, extr, fold)
+                if rng.random() < 0.5:
+                    st = GeneralCircuitQuantumState(n, carg)
+                else:
+                    st = ComputationalBasisState(n, bits=0).with_gates_applied(list(c.gates))
+                r = zest(obs, st)
+                got = r.value
+            got = complex(got)
+        except Exception as e:  # noqa: BLE001
+            got = f"{type(e).__name__}: {str(e)[:100]}"
+        if obs_form != "nonhermitian" and qulacs_est is not None and rng.random() < 0.6:
+            # history: a few long-lived wrapped estimators serve many (observable, state) pairs, observables recur
+            if not shared_est:
+                for sfs, od, fk in (([1.0, 2.0, 3.0], 2, "left"), ((1.0, 3.0, 5.0), 1, "right"), ([3.0, 1.5, 2.0, 1.0], 3, "left"), ([1, 3], 1, "right")):
+                    shared_est[(tuple(sfs), od, fk)] = create_zne_estimator(qulacs_est, sfs, create_polynomial_extrapolate(od), folds[fk]())
+            hk = rng.choice(list(shared_est))
+            ctx.evaluations += 1
+            ctx.count("zne_entry", "shared-estimator")
+            hinp = {**inp, "entry": "create_zne_estimator (one object reused)", "scale_factors": list(hk[0]), "extrapolation": "poly", "order": hk[1], "folding": hk[2]}
+            try:
+                hv = complex(shared_est[hk](obs, GeneralCircuitQuantumState(n, carg)).value)
+                if abs(hv - exact.real) > 1e-6 * max(1.0, abs(exact)):
+                    ctx.witness("zne-noiseless", f"a reused create_zne_estimator object gives {hv!r} instead of {exact.real!r}", hinp)
+            except Exception as e:  # noqa: BLE001
+                ctx.witness("zne-raises", f"a reused create_zne_estimator object raises {type(e).__name__}: {str(e)[:100]}", hinp)
+        if obs_form == "nonhermitian":
+            if abs(exact.imag) < 1e-3:
+                continue
+            if isinstance(got, str):
+                ctx.count("zne_nonhermitian", "rejected")
+                continue
+            if fam == "exp_const_log":
+                continue
+            if abs(got - exact) > 1e-6 * max(1.0, abs(exact)):
+                ctx.witness("zne-nonhermitian", f"a non-Hermitian observable is accepted and the mitigated value {got!r} is not the exact expectation {exact!r}", inp)
+            continue
+        v = exact.real
+        if fam == "exp_const_log":
+            _judge_log(ctx, v, const, got if isinstance(got, str) else got.real, f"{entry} with log-fit exponential extrapolation on a noiseless estimator", inp)
+            continue
+        if isinstance(got, str):
+            if fam in ("exp", "exp_const") and got.startswith("RuntimeError"):
+                ctx.count("zne_exp_fit", "optimizer-gave-up")  # scipy could not fit a flat curve with 1e-16 jitter: no value to judge
+                continue
+            ctx.witness("zne-raises", f"{entry} ({fam}, order {order}) on a noiseless estimator raises {got}", inp)
+            continue
+        if abs(got - v) > 1e-6 * max(1.0, abs(v)):
+            ctx.witness("zne-noiseless", f"{entry} ({fam} order {order}, folding {fname}) on a noiseless estimator gives {got!r} instead of {v!r}", inp)
+
+
+def validate_qsub(ctx: Ctx):
+    """packages/qsub lib/std/inverse.py: for std ops (arbitrary angles), Controlled / MultiControlled of them, user
+    sub-routines (no tracked phase, no auxiliaries: those are C19's) and nestings, `op ; Inverse(op)` and
+    `Inverse(op) ; op`, compiled to a gate circuit, act as the identity up to a global phase"""
+    import numpy as np
+
+    from oracle import dense
+    from quri_parts.qsub.compile import compile_sub
+    from quri_parts.qsub.eval import QURIPartsEvaluatorHooks
+    from quri_parts.qsub.evaluate import Evaluator
+    from quri_parts.qsub.lib import std
+    from quri_parts.qsub.namespace import NameSpace
+    from quri_parts.qsub.op import Ident, Op
+    from quri_parts.qsub.primitive import AllBasicSet
+    from quri_parts.qsub.resolve import default_repository
+    from quri_parts.qsub.sub import SubBuilder
+
+    rng = ctx.rng
+    ns = NameSpace(f"c12w{os.getpid()}")
+    counter = [0]
+    one = ["H", "X", "Y", "Z", "S", "Sdag", "SqrtX", "SqrtXdag", "SqrtY", "SqrtYdag", "T", "Tdag"]  # Controlled(Identity) has no resolver
+
+    def prim(maxq):
+        r = rng.random()
+        if r < 0.4:
+            nm = rng.choice(["RX", "RY", "RZ", "Phase"])
+            a = float(rng.choice([c01.nongrid_angle(rng), rng.uniform(-7, 7), 0.0, math.pi, -math.pi / 2]))
+            return f"{nm}({a!r})", getattr(std, nm)(a)
+        if r < 0.8 or maxq < 2:
+            nm = rng.choice(one)
+            return nm, getattr(std, nm)
+        nm = rng.choice(["CNOT", "CZ", "SWAP"] + (["Toffoli"] if maxq >= 3 else []))
+        return nm, getattr(std, nm)
+
+    def term(depth, maxq):
+        r = rng.random()
+        if depth <= 0 or r < 0.3:
+            return prim(maxq)
+        if r < 0.45:
+            s, o = term(depth - 1, maxq)
+            return f"Inverse({s})", std.Inverse(o)
+        if r < 0.65 and maxq >= 2:
+            s, o = term(depth - 1, maxq - 1)
+            return f"Controlled({s})", std.Controlled(o)
+        if r < 0.75 and maxq >= 2:
+            bits = rng.randint(1, min(2, maxq - 1))
+            val = rng.randrange(1 << bits)
+            s, o = term(depth - 1, maxq - bits)
+            return f"MultiControlled({s},{bits},{val})", std.MultiControlled(o, bits, val)
+        nq = rng.randint(1, maxq)
+        b = SubBuilder(nq)
+        parts = []
+        for _ in range(rng.randint(1, 4)):
+            s, o = term(depth - 1, nq)
+            qs = rng.sample(range(nq), o.qubit_count)
+            b.add_op(o, tuple(b.qubits[q] for q in qs))
+            parts.append(f"{s}@{qs}")
+        counter[0] += 1
+        o = Op(Ident(ns, f"W{counter[0]}"), nq)
+        default_repository().register_sub(o, b.build())
+        return f"Sub[{nq}: " + "; ".join(parts) + "]", o
+
+    def compiled(ops, nq):
+        b = SubBuilder(nq)
+        for o in ops:
+            b.add_op(o, b.qubits)
+        circ = Evaluator(QURIPartsEvaluatorHooks()).run(compile_sub(b.build(), AllBasicSet))
+        return circ
+
+    for it in range(ctx.n(300, 3000)):
+        s, o = term(rng.choice([0, 1, 1, 2, 2, 3]), 3) if it else ("Identity", std.Identity)
+        nq = o.qubit_count
+        order = rng.choice(["op;inv", "inv;op"])
+        ctx.evaluations += 1
+        ctx.count("qsub_inverse", s.split("(")[0].split("[")[0])
+        inp = {"op": s, "order": order}
+        try:
+            compiled([o], nq)
+        except Exception:  # noqa: BLE001
+            # the op itself cannot be compiled (e.g. Controlled(Identity) has no resolver): says nothing about Inverse -> C19
+            ctx.count("qsub_inverse", "op-alone-does-not-compile")
+            continue
+        try:
+            inv = std.Inverse(o)
+            circ = compiled([o, inv] if order == "op;inv" else [inv, o], nq)
+            n = max(circ.qubit_count, nq)
+            if n > 8:
+                continue
+            u = dense.circuit_unitary(n, circ.gates)
+        except Exception as e:  # noqa: BLE001
+            ctx.witness("qsub-inverse", f"compiling {order} raises {type(e).__name__}: {str(e)[:120]}", inp)
+            continue
+        d = 1 << nq
+        leak = float(np.max(np.abs(u[d:, :d]))) if n > nq else 0.0
+        dist = dense.phase_dist(u[:d, :d], np.eye(d))
+        if leak > 1e-7 or dist > 1e-7:
+            ctx.witness("qsub-inverse", f"{order} differs from the identity by {dist:.3g} (auxiliary leakage {leak:.3g})", inp)
+
+
 def run(ctx: Ctx, replay=None) -> int:
     ctx.rule = ("cases = (dyadic scale factor p/q, gate count n, folding method): real scaling_circuit_folding on n distinguishable gates vs "
-                "Lean model (selected indices, folded sequence, length); distinct = distinct (p,q,n,method); plus per-kind inverse_gate / "
-                "inverse_circuit / folding / noiseless-ZNE validation on the real code against the dense oracle")
+                "Lean model (selected indices, folded sequence, length); distinct = distinct (p,q,n,method); plus, on the real code against the dense "
+                "oracle / exact rational arithmetic: per-kind inverse_gate incl. matrix / angle / index argument forms and symmetric, real, "
+                "Hermitian unitaries up to 3 qubits; inverse_circuit on mutable / frozen / bound-parametric circuits; folding of arbitrary gates "
+                "(near-twin gates, re-folded circuits, shared folding objects, user-written folding methods, int / numpy / non-dyadic scale "
+                "factors: exact count, block structure, action); every extrapolation family on constant data; zne / richardson_extrapolation / "
+                "create_zne_estimator (fresh and long-lived) with Operator / bare-label / non-Hermitian observables on exact estimators; the qsub "
+                "Inverse op on std ops, Controlled / MultiControlled and user sub-routines")
     ctx.trusted = c01.TRUSTED[:5] + [
-        "float arithmetic of _get_residual_n_gates is exact for the dyadic scale factors used in the correspondence; general floats are validated per instance",
-        "polynomial/Richardson extrapolation numerics (numpy Polynomial.fit) validated per instance; exponential fits not covered",
+        "float arithmetic of _get_residual_n_gates is exact for the dyadic scale factors used in the correspondence; general floats are validated "
+        "per instance against exact rational arithmetic (a result one above the exact floor is accepted only within 1e-9 of the boundary)",
+        "extrapolation numerics (numpy Polynomial.fit, scipy curve_fit) validated per instance on constant data; a scipy RuntimeError "
+        "('optimal parameters not found') on data that are flat up to 1e-16 jitter is not judged",
+        "qsub Inverse: sub-routines with a tracked phase or auxiliary qubits under Controlled/Inverse are C19's; C12 checks phase-free programs",
     ]
     ctx.assumptions = ["scale factors ≥ 1", "gates are unitary"]
     table = gen(ctx)
-    ok = ctx.prove(["QuriVerif.Props.C12", "QuriVerif.Driver.All"], ["QuriVerif.Props.C12", "QuriVerif.Generated.C12Inverse"])
+    ok = ctx.prove(["QuriVerif.Props.C12", "QuriVerif.Props.C12Lift", "QuriVerif.Driver.All"],
+                   ["QuriVerif.Props.C12", "QuriVerif.Props.C12Lift", "QuriVerif.Generated.C12Inverse"])
     if ok:
         names = [f"QV.Props.C12.{n}" for _, n, _ in ctx.count_obligations(["QuriVerif.Props.C12"])]
-        ctx.audit(names, ["QuriVerif.Props.C12"])
-        with ctx.timed("correspond"):
-            check_translation_instances(ctx, table)
-            correspond(ctx)
-    with ctx.timed("oracle_validation"):
-        budget = (12 if ctx.quick() else 150) * (1 if ok and not ctx.disagreements else 3)
-        validate(ctx, budget)
+        names += [f"QV.Props.C12Lift.{n}" for _, n, _ in ctx.count_obligations(["QuriVerif.Props.C12Lift"]) if n != "circ_ok"]
+        ctx.audit(names, ["QuriVerif.Props.C12", "QuriVerif.Props.C12Lift"])
+        _guard(ctx, "correspond", lambda c: (check_translation_instances(c, table), correspond(c)))
+    budget = (8 if ctx.quick() else 120) * (1 if ok and not ctx.disagreements else 3)
+    _guard(ctx, "oracle_validation", lambda c: validate(c, budget))
+    for name, fn in (("inverse_forms", validate_inverse_forms), ("fold_general", validate_fold_general), ("extrapolators", validate_extrapolators),
+                     ("zne_entry_points", validate_zne), ("qsub_inverse", validate_qsub)):
+        _guard(ctx, name, fn)
+    keys: dict = {}
+    for w in ctx.witnesses:
+        keys[w["key"]] = keys.get(w["key"], 0) + 1
+    ctx.extra["witness_keys"] = keys
     return ctx.finish()
